@@ -39,9 +39,13 @@ void harness(void)
 	for (i = 0; i < QMAX; i++) es[i] = V_IN_U8("stale");
 	eq.data.base = es; eq.data.max = QMAX; eq.data.off = OFF; eq._enc = ENC;
 #if PREV
-	r = mpt_queue_push(&eq, 0, 0);
-	V_ASSERT(r >= 0 && eq.data.len == 2, "an empty message is framed as two bytes");
-	skip = 2;
+	/* PREV earlier empty messages, each framed as two bytes, stay queued in front */
+	for (i = 0; i < PREV; i++) {
+		r = mpt_queue_push(&eq, 0, 0);
+		V_ASSERT(r >= 0 && eq.data.len == 2 * (i + 1), "an empty message is framed as two bytes");
+	}
+	skip = 2 * PREV;
+	V_ASSUME(n + 2 + skip <= QMAX);
 #endif
 	if (s1) { r = mpt_queue_push(&eq, s1, m); V_ASSERT(r == (ssize_t) s1, "first part accepted (space is available)"); }
 	if (n > s1) { r = mpt_queue_push(&eq, n - s1, m + s1); V_ASSERT(r == (ssize_t) (n - s1), "second part accepted (space is available)"); }
@@ -51,7 +55,7 @@ void harness(void)
 	V_ASSERT(eq.data.len <= QMAX && eq.data.len >= skip + 2, "queue length within the ring");
 	for (i = 0; i < QMAX; i++) flat[i] = es[(eq.data.off + i) % QMAX];
 #if PREV
-	V_ASSERT(flat[0] == 1 && flat[1] == 0, "the earlier frame is still in front");
+	for (i = 0; i < PREV; i++) V_ASSERT(flat[2 * i] == 1 && flat[2 * i + 1] == 0, "the earlier frames are still in front, unchanged");
 #endif
 	rr = ref_decode(VARIANT, flat + skip, eq.data.len - skip, out, &olen, &used);
 	V_ASSERT(rr == 1 && used == eq.data.len - skip, "queued bytes form exactly one well-formed frame");
